@@ -467,6 +467,18 @@ pub fn step<Q: QueueLike>(q: &mut Q, op: &Op, m: &mut Model, unordered: &mut boo
         }
         Op::Drain { front, back, end } => {
             let mut out = vec![];
+            // the one sequence a double-ended drain takes its elements from: a full forward drain of a clone
+            let mut fwd: Vec<u32> = vec![];
+            {
+                let mut c = q.clone();
+                let mut it = c.q_drain();
+                while let Some((i, _)) = it.nx() {
+                    fwd.push(i.key);
+                    if fwd.len() > m.len() + 1 {
+                        break;
+                    }
+                }
+            }
             {
                 let mut it = q.q_drain();
                 for _ in 0..*front {
@@ -487,6 +499,16 @@ pub fn step<Q: QueueLike>(q: &mut Q, op: &Op, m: &mut Model, unordered: &mut boo
                 }
             }
             let want = (*front as usize + *back as usize).min(m.len());
+            if fwd.len() == m.len() {
+                let nf = (*front as usize).min(m.len());
+                let mut expect: Vec<u32> = fwd[..nf].to_vec();
+                let nb = want - nf;
+                expect.extend(fwd.iter().rev().take(nb));
+                let got: Vec<u32> = out.iter().map(|x| x.0).collect();
+                if got != expect {
+                    bail!("drain: {front} calls of next then {back} of next_back yielded items {got:?}; taking them from the two ends of the forward order {fwd:?} gives {expect:?}");
+                }
+            }
             if out.len() != want {
                 bail!("drain yielded {} elements for {} calls on {} stored", out.len(), front + back, m.len());
             }
